@@ -3,6 +3,7 @@ package c18
 import (
 	"bytes"
 	"context"
+	"crypto/sha256"
 	"encoding/json"
 	"fmt"
 	"net/http/httptest"
@@ -25,6 +26,12 @@ import (
 // (c) file replacement: the child rewrites the config file through the management API or MCP and is SIGKILLed
 // before every statement of writeFileAtomic / syncDir / rollbackConfigFile (instrumented by verifgen); afterwards the
 // file must hold exactly the old or exactly the new bytes and the new bytes must compile.
+//
+// Second phase - the replacement flow started from a NON-initial directory: after every crash point the gateway is
+// started again by a fresh process on the directory as the killed process left it (staging files and all) and a second,
+// different rewrite is made - one whose formatted content is shorter than what the killed rewrite was writing and one
+// that is longer. The fresh process must start, the rewrite must be answered as in a clean directory holding the same
+// configuration file, and the configured path must then hold byte for byte what the clean directory holds.
 
 const mgmtOld = head + `/m { queue { backend memory }  pull { path /em } }
 /n { queue { backend memory }  pull { path /en } }
@@ -51,8 +58,13 @@ func crashChild(scn string) {
 	verifcrash.Init()
 	dir := os.Getenv("VERIF_CRASH_DIR")
 	cfgPath := filepath.Join(dir, "Hookaidofile")
+	if strings.HasPrefix(scn, "second:") {
+		secondChild(scn, dir, cfgPath)
+		verifcrash.Log(fmt.Sprintf("DONE %d", verifcrash.Count()))
+		os.Exit(0)
+	}
 	switch scn {
-	case "admin-upsert", "admin-delete":
+	case "admin-upsert", "admin-delete", "admin-upsert-long":
 		st := queue.NewMemoryStore()
 		text := mgmtOld
 		if scn == "admin-delete" {
@@ -68,7 +80,11 @@ func crashChild(scn string) {
 		if scn == "admin-delete" {
 			method, body = "DELETE", ""
 		}
-		r := httptest.NewRequest(method, "/applications/app1/endpoints/ep1", strings.NewReader(body))
+		target := "/applications/app1/endpoints/ep1"
+		if scn == "admin-upsert-long" {
+			target = "/applications/" + longLabel("application") + "/endpoints/" + longLabel("endpoint")
+		}
+		r := httptest.NewRequest(method, target, strings.NewReader(body))
 		r.Header.Set("X-Hookaido-Audit-Reason", "verif")
 		r.Header.Set("Content-Type", "application/json")
 		w := httptest.NewRecorder()
@@ -93,6 +109,11 @@ func crashChild(scn string) {
 func spawnCrash(scn, dir string, at int) (killed bool, out string, err error) {
 	os.RemoveAll(dir)
 	os.MkdirAll(dir, 0o755)
+	return spawnIn(scn, dir, at)
+}
+
+// spawnIn runs the child on the directory as it is.
+func spawnIn(scn, dir string, at int) (killed bool, out string, err error) {
 	cmd := exec.Command(os.Args[0], "-test.run", "^TestCheck$", "-test.timeout", "0")
 	cmd.Env = append(os.Environ(), "VERIF_C18_CHILD="+scn, "VERIF_CRASH_DIR="+dir, fmt.Sprintf("VERIF_CRASH_AT=%d", at), "VERIF_CRASH_LOG="+filepath.Join(dir, "side.log"), "VERIF_CRASH_LABELS=1")
 	var buf strings.Builder
@@ -130,7 +151,10 @@ func compiles(b []byte) bool {
 
 func crashPart(r *runner.Run) {
 	scratch := runner.Scratch()
-	for _, scn := range []string{"admin-upsert", "admin-delete", "mcp-write-only", "mcp-write-and-reload-fails"} {
+	refs := &secondRefs{m: map[string]secondOutcome{}, seen: map[string]bool{}}
+	var shorter, longer, withLeftovers int64
+	var cmu sync.Mutex
+	for _, scn := range []string{"admin-upsert", "admin-upsert-long", "admin-delete", "mcp-write-only", "mcp-write-and-reload-fails"} {
 		d0 := filepath.Join(scratch, "c18c-"+scn+"-count")
 		killed, out, err := spawnCrash(scn, d0, 0)
 		if err != nil || killed {
@@ -205,12 +229,258 @@ func crashPart(r *runner.Run) {
 					if which != "old" && which != "new" {
 						r.Violation("file-replace:"+scn+":"+which, fmt.Sprintf("[%s] killed at %q: the config file is %s (neither the complete old nor the complete new content): %q", scn, label, which, truncate(got)),
 							map[string]any{"engine": "crash", "scenario": scn, "crash_at": n, "label": label}, nil)
+						continue
+					}
+					// second phase: restart on the directory as it is, then a different rewrite
+					for _, kind := range secondKinds {
+						sh, left := secondPhase(r, refs, scn, filepath.Join(scratch, fmt.Sprintf("c18c2-%s-w%d", scn, w)), dir, n, label, got, kind, len(newB))
+						cmu.Lock()
+						if sh {
+							shorter++
+						} else {
+							longer++
+						}
+						if left {
+							withLeftovers++
+						}
+						cmu.Unlock()
 					}
 				}
 			}(w)
 		}
 		wg.Wait()
 	}
+	r.Set("file-replace:second-rewrite-after-restart", map[string]any{"rewrites": shorter + longer, "shorter_than_the_killed_rewrite": shorter, "not_shorter": longer,
+		"started_in_a_directory_with_leftover_files": withLeftovers, "kinds": secondKinds})
+}
+
+// ---- second phase ---------------------------------------------------------------------------------------------------
+
+var secondKinds = []string{"shorter", "longer"}
+
+func longLabel(kind string) string { return kind + "-" + strings.Repeat("x", 60) }
+
+// secondContent: what the second MCP config_apply writes.
+func secondContent(kind string) string {
+	if kind == "shorter" {
+		return head + "/only { queue { backend memory }  pull { path /eo } }\n"
+	}
+	return mgmtOld + "/extra { queue { backend memory }  pull { path /ex } }\n/extra2 { queue { backend memory }  pull { path /ex2 } }\n/extra3 { queue { backend memory }  pull { path /ex3 } }\n"
+}
+
+// secondChild: the fresh process. It starts on the directory as it is and rewrites the configuration once.
+func secondChild(scn, dir, cfgPath string) {
+	parts := strings.SplitN(scn, ":", 3) // second:<first scenario>:<kind>
+	first, kind := parts[1], parts[2]
+	if strings.HasPrefix(first, "admin-") {
+		a, err := app.VerifBoot(app.VerifBootOptions{Dir: dir, Store: queue.NewMemoryStore()})
+		if err != nil {
+			verifcrash.Log("STATUS does-not-start " + strings.ReplaceAll(err.Error(), "\n", " "))
+			return
+		}
+		application, endpoint := "a", "e"
+		if kind == "longer" {
+			application, endpoint = longLabel("second-application"), longLabel("second-endpoint")
+		}
+		rq := httptest.NewRequest("PUT", "/applications/"+application+"/endpoints/"+endpoint, strings.NewReader(`{"route":"/n"}`))
+		rq.Header.Set("X-Hookaido-Audit-Reason", "verif")
+		rq.Header.Set("Content-Type", "application/json")
+		w := httptest.NewRecorder()
+		verifcrash.Arm()
+		a.Admin.ServeHTTP(w, rq)
+		verifcrash.Disarm()
+		verifcrash.Log(fmt.Sprintf("STATUS %d", w.Code))
+		a.Shutdown()
+		return
+	}
+	verifcrash.Arm()
+	out := mcpApply(cfgPath, filepath.Join(dir, "q.db"), secondContent(kind), "write_only")
+	verifcrash.Disarm()
+	verdict := "not-applied"
+	if strings.Contains(strings.NewReplacer("\\", "", " ", "").Replace(out), `"applied":true`) {
+		verdict = "applied"
+	}
+	verifcrash.Log("STATUS " + verdict)
+}
+
+type secondOutcome struct {
+	status  string
+	content []byte
+	err     string
+	points  int // crash points the rewrite passed
+}
+
+type secondRefs struct {
+	mu   sync.Mutex
+	m    map[string]secondOutcome
+	seen map[string]bool // directory states whose second rewrite was itself crashed at every point (thorough)
+}
+
+func copyFiles(from, to string) (leftovers []string, sig string) {
+	os.RemoveAll(to)
+	os.MkdirAll(to, 0o755)
+	ents, _ := os.ReadDir(from)
+	for _, e := range ents {
+		if e.IsDir() {
+			continue
+		}
+		b, err := os.ReadFile(filepath.Join(from, e.Name()))
+		if err != nil {
+			continue
+		}
+		info, _ := e.Info()
+		mode := os.FileMode(0o644)
+		if info != nil {
+			mode = info.Mode().Perm()
+		}
+		os.WriteFile(filepath.Join(to, e.Name()), b, mode)
+		os.Chmod(filepath.Join(to, e.Name()), mode)
+		if e.Name() != "side.log" {
+			// the name with its digits blanked (random suffixes), the mode and the bytes
+			name := strings.Map(func(c rune) rune {
+				if c >= '0' && c <= '9' {
+					return '#'
+				}
+				return c
+			}, e.Name())
+			sig += fmt.Sprintf("%s|%o|%x;", name, mode, sha256.Sum256(b))
+		}
+		if e.Name() != "Hookaidofile" && e.Name() != "side.log" {
+			leftovers = append(leftovers, fmt.Sprintf("%s(%dB)", e.Name(), len(b)))
+		}
+	}
+	return leftovers, sig
+}
+
+func statusOf(dir string) string {
+	lb, _ := os.ReadFile(filepath.Join(dir, "side.log"))
+	st := ""
+	for _, l := range strings.Split(string(lb), "\n") {
+		if strings.HasPrefix(l, "STATUS ") {
+			st = strings.TrimPrefix(l, "STATUS ")
+		}
+	}
+	return st
+}
+
+// runSecond: the second rewrite by a fresh process in dir (as it is).
+func runSecond(scn, kind, dir string) secondOutcome {
+	os.Remove(filepath.Join(dir, "side.log"))
+	killed, out, err := spawnIn("second:"+scn+":"+kind, dir, 0)
+	if err != nil || killed {
+		return secondOutcome{err: fmt.Sprintf("second-phase child failed: %v %s", err, out)}
+	}
+	lb, _ := os.ReadFile(filepath.Join(dir, "side.log"))
+	points := 0
+	for _, l := range strings.Split(string(lb), "\n") {
+		fmt.Sscanf(l, "DONE %d", &points)
+	}
+	o := runSecondRead(dir)
+	o.points = points
+	return o
+}
+
+func runSecondRead(dir string) secondOutcome {
+	b, rerr := os.ReadFile(filepath.Join(dir, "Hookaidofile"))
+	if rerr != nil {
+		return secondOutcome{status: statusOf(dir), err: ""}
+	}
+	return secondOutcome{status: statusOf(dir), content: b}
+}
+
+// get: the same rewrite in a clean directory that holds nothing but the configuration file with the given content.
+func (sr *secondRefs) get(scn, kind, scratch string, state []byte) secondOutcome {
+	fam := "mcp"
+	if strings.HasPrefix(scn, "admin-") {
+		fam = "admin"
+	}
+	key := fam + "|" + kind + "|" + string(state)
+	sr.mu.Lock()
+	defer sr.mu.Unlock()
+	if o, ok := sr.m[key]; ok {
+		return o
+	}
+	dir := filepath.Join(scratch, "c18c2-clean")
+	os.RemoveAll(dir)
+	os.MkdirAll(dir, 0o755)
+	os.WriteFile(filepath.Join(dir, "Hookaidofile"), state, 0o644)
+	o := runSecond(scn, kind, dir)
+	sr.m[key] = o
+	return o
+}
+
+// secondPhase reports (the rewrite is shorter than what the killed rewrite was writing, the directory held leftovers).
+func secondPhase(r *runner.Run, refs *secondRefs, scn, work, crashed string, n int, label string, state []byte, kind string, abortedLen int) (bool, bool) {
+	want := refs.get(scn, kind, filepath.Dir(work), state)
+	if want.err != "" || want.content == nil || !compiles(want.content) || bytes.Equal(want.content, state) {
+		r.Infra("%s: second rewrite (%s) in a clean directory did not produce a new, compiling config: status %q %s", scn, kind, want.status, want.err)
+		return false, false
+	}
+	leftovers, sig := copyFiles(crashed, work)
+	got := runSecond(scn, kind, work)
+	r.Add("file_replace_second_rewrites", 1)
+	short := len(want.content) < abortedLen
+	tag := "not-shorter"
+	if short {
+		tag = "shorter"
+	}
+	r.Distinct(fmt.Sprintf("%s:second:%s:leftovers=%v", scn, tag, len(leftovers) > 0))
+	if got.err != "" {
+		r.Infra("%s: crash point %d, %s", scn, n, got.err)
+		return short, len(leftovers) > 0
+	}
+	replay := map[string]any{"engine": "crash", "scenario": scn, "crash_at": n, "label": label, "second": kind}
+	where := fmt.Sprintf("[%s] killed at %q, restarted on the directory as it was left (config file + %v), then a %s rewrite (%d bytes; the killed rewrite was writing %d bytes)", scn, label, leftovers, kind, len(want.content), abortedLen)
+	switch {
+	case strings.HasPrefix(got.status, "does-not-start"):
+		r.Violation("file-replace-after-crash:"+scn+":"+kind+":does-not-start", where+": the fresh process does not start: "+got.status, replay, nil)
+	case got.status != want.status:
+		r.Violation("file-replace-after-crash:"+scn+":"+kind+":answer", fmt.Sprintf("%s: the rewrite was answered %q; in a clean directory holding the same configuration file it is answered %q", where, got.status, want.status), replay, nil)
+	case !bytes.Equal(got.content, want.content):
+		r.Violation("file-replace-after-crash:"+scn+":"+kind+":content", fmt.Sprintf("%s: the configured path holds %d bytes that are not what the same rewrite leaves in a clean directory (%d bytes); compiles=%v; tail: %q", where, len(got.content), len(want.content), compiles(got.content), tailBytes(got.content, 160)), replay, nil)
+	}
+	// thorough: the second rewrite is itself killed at every one of its crash points, once per distinct directory
+	// state (file names with their random digits blanked, modes, bytes): the configured path must hold the content the
+	// fresh process found or the complete second content
+	if r.Thorough() && len(leftovers) > 0 && got.points > 0 {
+		key := scn + "|" + kind + "|" + sig
+		refs.mu.Lock()
+		first := !refs.seen[key]
+		refs.seen[key] = true
+		refs.mu.Unlock()
+		if first {
+			for k := 1; k <= got.points; k++ {
+				copyFiles(crashed, work)
+				os.Remove(filepath.Join(work, "side.log"))
+				killed, out, err := spawnIn("second:"+scn+":"+kind, work, k)
+				if err != nil || !killed {
+					r.Infra("%s: second rewrite (%s) after crash point %d, its crash point %d: child was not killed (%v) %s", scn, kind, n, k, err, out)
+					continue
+				}
+				now, rerr := os.ReadFile(filepath.Join(work, "Hookaidofile"))
+				r.Add("file_replace_second_rewrite_crash_points", 1)
+				if rerr != nil || !(bytes.Equal(now, state) || bytes.Equal(now, want.content)) {
+					lb, _ := os.ReadFile(filepath.Join(work, "side.log"))
+					label2 := ""
+					for _, l := range strings.Split(string(lb), "\n") {
+						if strings.HasPrefix(l, "CRASH ") {
+							label2 = l
+						}
+					}
+					r.Violation("file-replace-after-crash:"+scn+":"+kind+":killed-again", fmt.Sprintf("%s, killed again at %q: the configured path holds neither the content the fresh process found nor the complete second content (%d bytes, read error %v): %q", where, label2, len(now), rerr, tailBytes(now, 160)),
+						map[string]any{"engine": "crash", "scenario": scn, "crash_at": n, "label": label, "second": kind, "second_crash_at": k}, nil)
+				}
+			}
+		}
+	}
+	return short, len(leftovers) > 0
+}
+
+func tailBytes(b []byte, n int) string {
+	if len(b) > n {
+		return "..." + string(b[len(b)-n:])
+	}
+	return string(b)
 }
 
 func truncate(b []byte) string {
